@@ -7,6 +7,7 @@ CONSTANTS
   LongSizes = {40, 300, 1000}
   LongRuns <- RunsThorough
   FullQueries = 13
+  PauseSizes = {300, 1000, 2000}
   DevSets <- OnlyFixed
   Seed = 1
   AllKinds = TRUE
